@@ -222,7 +222,7 @@ def replay(path):
 # ------------------------------------------------------------------------------------------------ configuration
 # (placed after the leg definitions)
 def _configure():
-    NR_SQL = "sqlite/src/lib.rs is SQL text executed by a C library: no deductive contract can be discharged for it; it is covered only by the bounded legs (bounded_checks), never counted under obligations"
+    NR_SQL = "what SQLite DOES with a statement (sqlite/src/lib.rs: the SQL text, the schema, SqliteStorage::new) is executed by a C library: no deductive contract can be discharged for it; it is covered only by the bounded legs (bounded_checks). What is RUST in that file -- which values every statement binds (always the client id the transaction was opened for), how rows are decoded, that BEGIN / COMMIT errors are propagated -- is under contract in unit U6 (enc.*, dec.*, commit.propagates, txn.client) relative to the assumed rusqlite stand-ins (A5)"
     NR_HTTP = "the HTTP layer is verified against actix-web stand-ins (A9): routing macros, web::Path extraction, middleware application and the real socket are not reached"
     NR_MEM = "core/src/inmemory.rs: locking (Mutex) is not modelled (A3)"
     cfg("C01", "proof", ["A1", "A2", "A4", "A6", "A8", "A11", "A13"], assumptions=[A["A1"], A["A8"]], not_reached=[NR_SQL, NR_MEM],
@@ -236,7 +236,7 @@ def _configure():
         explanation="three sequential obligations: O1 every Server operation uses exactly one transaction opened for its own client (E9 twin + may_open); O2 every storage precondition in a handler is established inside the same transaction (Server::txn returns an arbitrary invariant-satisfying state); O3 effects reach durable state only through one commit and success is reported only after it",
         legs=[INTERLEAVE, EXPLORE, SQLCONF])
     cfg("C05", "proof", ["A4", "A5", "A6", "A13"], assumptions=[A["A5"]],
-        not_reached=["error propagation inside sqlite/src/lib.rs itself (a swallowed rusqlite error there is invisible to Verus; the bounded fault leg injects faults at the StorageTxn boundary only)", NR_HTTP],
+        not_reached=["error propagation inside sqlite/src/lib.rs is under contract for commit (commit.propagates: Ok only after the COMMIT statement succeeded), for BEGIN (txn.client) and, through `?` (E3), for every write statement of unit U6 (enc.*: `r is Ok` iff the statement succeeded); what SQLite does when a statement fails half-way, and Drop of the connection (implicit rollback), are assumed (A5); the bounded fault leg injects faults at the StorageTxn boundary only", NR_HTTP],
         explanation="the storage contract lets every call fail (fault counter); *.err_only_on_fault, av.err_atomic, *.ack_after_commit, *.drop_clean and enc.* (Other => 500) are proved for every placement of failures",
         legs=[FAULTS, HTTP, STANDINS, SQLCONF])
     cfg("C06", "proof", ["A2", "A4", "A9", "A13"], not_reached=[NR_SQL, NR_HTTP],
@@ -260,7 +260,7 @@ def _configure():
     cfg("C12", "proof", ["A7", "A8", "A10", "A12", "A13"], assumptions=[A["A7"], A["A8"]], not_reached=[NR_SQL, "the wall clock (A10)", "configuration wiring in main (C17)"],
         explanation="threshold functions equal floor(3t/2)/t spec for ALL targets without overflow (Verus over all i64/u32), urgency = max of both from the pre-request record (av.urgency), counter bumped by add_version_spec and reset by new_snap (storage contract)",
         legs=[EXPLORE, KANI_URGENCY, SQLCONF, STANDINS, XCHECK])
-    cfg("C13", "exploration", ["A5", "A13"], not_reached=["what SQLite does with a statement is ONLY bounded; proved parts: server.rs never calls storage outside the documented preconditions (st.*.pre call-site obligations), the contract is functional, inmemory.rs refines it (U2), and on the SQLite side the values the Rust code binds to its statements and the way it decodes a client row (units U5, U6: enc.*, dec.client)"],
+    cfg("C13", "exploration", ["A5", "A13"], not_reached=["what SQLite does with a statement is ONLY bounded; proved parts: server.rs never calls storage outside the documented preconditions (st.*.pre call-site obligations), the contract is functional, inmemory.rs refines it (U2), and on the SQLite side the values the Rust code binds to EVERY statement (writes and reads; always the client id the transaction was opened for: txn.client, *.bound), the way it decodes client / version / snapshot rows, and the propagation of BEGIN / COMMIT failures (units U5, U6: enc.*, dec.*, commit.propagates, txn.client)"],
         explanation="bounded: the same executable contract is the oracle for all three backend configurations (in-memory, SQLite, SQLite re-opened before every request), so equal histories give equal responses up to ids/clock",
         legs=[EXPLORE, SQLCONF, XCHECK])
     cfg("C14", "proof", ["A9", "A11", "A13"], assumptions=[A["A9"]], not_reached=[NR_HTTP],
@@ -274,7 +274,7 @@ def _configure():
         legs=[HTTP, STANDINS])
     cfg("C19", "other", ["A5", "A11", "A13"], assumptions=[A["A11"], "the corpus was written by the tree pinned for this task (HEAD 8109860 = the pinned commit a6bc6ed + the two `fix:` commits, neither of which touches the sqlite crate: `git diff a6bc6ed HEAD -- sqlite` is empty)"],
         not_reached=[NR_SQL, "the schema and every SQL statement (table / column names and meaning, timestamp unit, migration steps): SQL text, covered only by the fixture corpus", "databases left by a crash in the middle of a write (C04); the corpus holds clean images and one image with an un-checkpointed WAL"],
-        explanation="what of the on-disk form is Rust is under contract: StoredUuid's ToSql / FromSql impls (sqlite/src/lib.rs) write an id as owned TEXT holding exactly its canonical text and read it back by parsing that text, never inventing an id (enc.id.write, enc.id.read, round-trip lemma enc.id.roundtrip over the assumed uuid text law A11); and unit U6 proves which values, in which order, unit and form, Txn::new_client / set_snapshot / add_version bind to their statements (timestamp in whole seconds, the given counter, the ids as text, the bytes as blobs: enc.new_client, enc.snapshot.write, enc.version.write) and how get_client decodes a row (dec.client), without pinning any SQL text. Everything else that decides whether an old database is still served -- schema, column meaning, timestamp unit, start-up statements -- is SQL and is decided only for the committed corpus: 4 data directories written by the pinned tree, opened, read completely, compared with their recorded content and extended. 'other': a relation between two builds is not a contract on one of them",
+        explanation="what of the on-disk form is Rust is under contract: StoredUuid's ToSql / FromSql impls (sqlite/src/lib.rs) write an id as owned TEXT holding exactly its canonical text and read it back by parsing that text, never inventing an id (enc.id.write, enc.id.read, round-trip lemma enc.id.roundtrip over the assumed uuid text law A11); and unit U6 proves which values, in which order, unit and form, Txn::new_client / set_snapshot / add_version bind to their statements (timestamp in whole seconds, the given counter, the ids as text, the bytes as blobs: enc.new_client, enc.snapshot.write, enc.version.write), how get_client decodes a row (dec.client), and how the read path (get_version_impl / get_version / get_version_by_parent / get_snapshot_data) binds ids in their text form and decodes rows BY COLUMN NAME (version_id, parent_version_id, history_segment, snapshot_version_id, snapshot: dec.version*, dec.child.bound, dec.snapshot*), without pinning any SQL text. Everything else that decides whether an old database is still served -- schema, column meaning, timestamp unit, start-up statements -- is SQL and is decided only for the committed corpus: 4 data directories written by the pinned tree, opened, read completely, compared with their recorded content and extended. 'other': a relation between two builds is not a contract on one of them",
         legs=[FIXTURES, SQLCONF, STANDINS])
     cfg("C20", "other", ["A9", "A13"], assumptions=[A["A9"], "that actix-web applies a scope's middleware to EVERY response of the scope (errors, unknown routes) is assumed, not verified"],
         not_reached=[NR_HTTP, "other middleware wrapped by the binary's main() around the whole App (ErrorHandlers, Logger)"],
